@@ -1,7 +1,7 @@
 SPECIFICATION Spec
 CONSTANTS
   NRec = 3
-  MaxCuts = 5
+  MaxCuts = 3
   BugH4 = TRUE
 INVARIANTS Emit
 CHECK_DEADLOCK FALSE
